@@ -18,7 +18,7 @@ def _str_consts(exprs):
         visited.add(e.get_id())
         if z3.is_const(e) and e.decl().kind() == z3.Z3_OP_UNINTERPRETED and e.sort() == USORT:
             nm = e.decl().name()
-            if nm.startswith("str:") or nm.startswith("dtype_"):
+            if nm.startswith("str:") or nm.startswith("dtype_") or nm in ("py:None", "py:True", "py:False"):
                 seen[nm] = e
         if z3.is_quantifier(e):
             stack.append(e.body())
@@ -35,7 +35,10 @@ def solve_obligation(ob, timeout_ms=10000, seed=0):
         ob.reason = "decided at translation time"
         ob.seconds = 0.0
         return ob
-    sc = _str_consts(list(ob.hyps) + [ob.goal])
+    # distinct literals denote distinct objects: every string / dtype constant created in this process (a superset of those in
+    # this obligation) plus None / True / False
+    from . import engine as _E
+    sc = list(_E.STR_CONSTS.values()) + list(_E.DTYPE_CONSTS.values()) + [z3.Const(n, USORT) for n in ("py:None", "py:True", "py:False")]
     # the solver seed is fixed (verdicts must not depend on VERIF_SEED); an `unknown` is retried with other seeds and a
     # doubled budget before the obligation is given up as undecided - nonlinear real goals are sensitive to the seed
     attempts = [(0, timeout_ms)] if "canary" in (ob.kind or "") else [(0, timeout_ms), (7, timeout_ms), (3, timeout_ms), (11, timeout_ms * 2), (5, timeout_ms * 2)]
